@@ -137,7 +137,10 @@ func C07(run *hx.Run) {
 	if run.Thorough() {
 		for _, jm := range []string{"delete", "truncate", "persist"} {
 			for _, sc := range []string{"spill-insert", "small-insert", "update-many", "delete-freelist", "grow", "two-statements", "small-insert-immediate"} {
-				for _, ps := range []int{512, 4096} {
+				for _, ps := range []int{512, 1024, 4096, 65536} {
+					if ps == 65536 && sc != "small-insert" && sc != "update-many" {
+						continue
+					}
 					scs = append(scs, c07Scenario{jm, sc, ps, jm == "persist" && ps == 512, false})
 				}
 			}
